@@ -17,6 +17,7 @@ def run(ctx):
     ctx.design("Cache/Cache.tla", "Cache08_quick.cfg" if q else "Cache08.cfg", workers=16, timeout=1500, heap="16g")
     import cacheimpl
     cacheimpl.run(ctx)
+    buddy(ctx)
     exe = ctx.harness("cache_drv", ["cache/cache_drv.cpp"])
     runs = []
     if q:
@@ -53,6 +54,37 @@ def run(ctx):
         os.remove(t)
     ctx.extra["rule"] = ("executions = Reset-delimited operation sequences run against the real cache with stats() after each; "
                          "distinct = distinct event texts among the first 4000 events of each driver run")
+
+
+def buddy(ctx):
+    """memory release: allocator model + real buddy_allocator traces + fill/empty/refill cycles of the shared-memory cache"""
+    ctx.design("Cache/Buddy.tla", "Buddy.cfg", workers=8, timeout=900, note="arena 46 units = 32+8+4+2, <=4 live blocks: Tiling, NoOverlap, NoFreeBuddies, Refill")
+    exe = ctx.harness("buddy_drv", ["cache/buddy_drv.cpp"])
+    for size, ops, rounds in ([(4000, 300, 3), (65000, 800, 2)] if ctx.quick else [(4000, 2000, 10), (65000, 4000, 6)]):
+        t = os.path.join(ctx.work, "buddy-%d.ndjson" % size)
+        rc, out, err = ctx.run_harness(exe, (size, ops, rounds), trace=t, timeout=600)
+        if rc != 0:
+            rp = os.path.join(ctx.replays, "buddy-crash-%d.txt" % size)
+            open(rp, "w").write(err[-3000:])
+            ctx.violation("buddy:crash", "buddy_allocator driver died: %s" % err[-200:], rp)
+            continue
+        for x in ctx.validate("Cache/BuddyTrace.tla", "BuddyTrace_%d.cfg" % size, t):
+            ctx.violation("buddy:%s" % x["event"].split('"')[3], "allocator trace is not a behaviour of Buddy at %s" % x["event"][:160], x["path"])
+        os.remove(t)
+    cexe = ctx.harness("cache_drv", ["cache/cache_drv.cpp"])
+    for vsize in ((700,) if ctx.quick else (100, 700, 5000, 40000)):
+        t = os.path.join(ctx.work, "refill-%d.ndjson" % vsize)
+        rc, out, err = ctx.run_harness(cexe, ("refill", "process", 4000, 5, 12 if ctx.quick else 60, vsize), trace=t, timeout=600)
+        if rc != 0:
+            rp = os.path.join(ctx.replays, "refill-crash-%d.txt" % vsize)
+            open(rp, "w").write(err[-3000:])
+            ctx.violation("refill:crash", "fill/clear/refill driver died: %s" % err[-200:], rp)
+            continue
+        lines = open(t).read().splitlines()
+        ctx.sample({"refill": lines[:3]})
+        for x in ctx.validate("Cache/RefillTrace.tla", "RefillTrace.cfg", t):
+            ctx.violation("refill:%s" % x["event"].split('"')[3], "shared-memory cache does not release memory: %s" % x["event"][:160], x["path"])
+        os.remove(t)
 
 
 def sig(x):
